@@ -497,7 +497,9 @@ def _multi(ctx, cfg, fns, invs, checks, what, backends=("py", "shim"), chunk=300
         ctx.notes["pools_redrawn"] = ctx.notes.get("pools_redrawn", 0) + 1
     ctx.add_tlc(res, what, exhaustive=not c.get("Sample"))
     if vac:
-        ctx.notes.setdefault("vacuous_keywords", []).extend(vac)
+        # exhaustive run: deterministic, a setting that cannot matter is a defect of the check (exit 2);
+        # sampled run: four pools were drawn without effect -- recorded, not fatal (depends on the seed)
+        ctx.notes.setdefault("vacuous_keywords" if not c.get("Sample") else "keyword_without_effect_in_sample", []).extend(vac)
     seen = set()
     for r in ex:
         key = (r["call"]["fn"], len(r["call"]["idx"]), r["call"]["iv"] != 0)
